@@ -22,7 +22,7 @@ RULE = ('INDEX: arrays of every shape 1..8 x 1..8 and every length 1..8 (thoroug
         'of 11 lookup values (each item, between items, below, above); type -1: the reversed arrays; seeded longer sorted arrays '
         'with int/float duplicates, 0.0 and -0.0; sorted lower-case text with ""; unsorted and mixed arrays (model comparison only). '
         'MATCH type 0: numeric arrays with duplicates, present and absent values; text arrays in mixed case with literal, '
-        'case-changed, ? and * patterns, present and absent. INDEX(A,MATCH(x,A,0)) for every item x of such arrays. '
+        'case-changed, ? and * patterns, present and absent, 40% of them right after a criteria function (COUNTIF/SUMIF/COUNTIFS/AVERAGEIF) or a MATCH in another letter case was evaluated on the same array and text in the same process. INDEX(A,MATCH(x,A,0)) for every item x of such arrays. '
         'Direct calls of the three functions on seeded odd arguments (blank, logical, float, text numerals, empty and ragged '
         'lists, wrong argument counts) for the model comparison only. '
         'Non-trivial = the position is inside the array / the lookup value is found / 1<=i<=n.')
@@ -201,6 +201,9 @@ def formula_of(c):
 
 # --------------------------------------------------------------------------- cases
 
+# evaluated before a wildcard MATCH, on the same array and text (array, text)
+PRE_FORMS = ['COUNTIF(@A,@X)', 'SUMIF(@A,@X)', 'COUNTIFS(@A,@X)', 'AVERAGEIF(@A,@X)', 'MATCH(UPPER(@X),@A,0)', 'MATCH(LOWER(@X),@A,0)']
+
 def index_sweep(a, src='var', sep=','):
     rows, cols = shape(a)
     out = []
@@ -374,7 +377,13 @@ def cases(rng, ctx):
         else:
             x = rng.choice(PATTERNS + WORDS)
         src = rng.choice(['var', 'var', 'lit', 'range'])
-        out.append({'kind': 'match', 'src': src, 'arr': arr, 'x': x, 't': 0})
+        d = {'kind': 'match', 'src': src, 'arr': arr, 'x': x, 't': 0}
+        if rng.random() < 0.4:
+            # the same text first serves as the criterion of a criteria function (which matches wildcards
+            # case-sensitively), or as a lookup value in another letter case, in the same process
+            d['pre'] = rng.choice(PRE_FORMS)
+        out.append(d)
+    out.append({'kind': 'match', 'src': 'lit', 'arr': ['Banana', 'Apple', 'apricot'], 'x': 'ap*', 't': 0, 'pre': 'COUNTIF(@A,@X)'})
     for w in WORDS:
         arr = WORDS[:]
         rng.shuffle(arr)
@@ -425,6 +434,10 @@ def impl(c):
         p.set_variable(k, v)
     _rangeval.clear()
     _rangeval.update(rs)
+    if c.get('pre'):
+        at = array_term(c)[0]
+        xt = lit_value(c['x']) if c.get('src', 'var') == 'lit' else 'X'
+        p.parse(c['pre'].replace('@A', at).replace('@X', xt))
     return p.parse(f)
 
 
